@@ -20,6 +20,8 @@ class Decoder8b(Decoder):
                         width:int, w_size:int) -> bytes:
         # Create a white image        
         w = w - padding_w
+        # pixels of the image in a row (the stored row may end with a pad byte)
+        iw = w
         w = w + (w%2)
         
         if w + padding_w > width:
@@ -55,8 +57,9 @@ class Decoder8b(Decoder):
                                       +"(x=%s y=%s col=%s)", x, y, run_value)
                         break
 
-                    p = y*width + x + padding_w
-                    data[p] = run_value
+                    if x < iw:
+                        p = y*width + x + padding_w
+                        data[p] = run_value
                     x += 1
                 
                 if x >= w:
@@ -81,8 +84,9 @@ class Decoder8b(Decoder):
                                       fdata[idx])
                         break
                     
-                    p = y*width + x + padding_w
-                    data[p] = fdata[idx]
+                    if x < iw:
+                        p = y*width + x + padding_w
+                        data[p] = fdata[idx]
                     x += 1            
     
                     idx = idx + 1
